@@ -7,6 +7,7 @@ import (
 	"math"
 
 	"github.com/squadracorsepolito/acmelib"
+	"verif/vinv"
 )
 
 type rng struct{ s uint64 }
@@ -217,6 +218,9 @@ func (g *gen) newMuxOp() op {
 		gs = 0
 	case p < 7:
 		gs = -3
+	case p < 10:
+		e := []int{math.MaxInt64, math.MaxInt64 - 64, math.MaxInt64 - 65, 1 << 62, math.MinInt64}
+		gs = e[r.below(len(e))]
 	}
 	return op{k: "newmux", a: c, z: gs}
 }
@@ -304,6 +308,10 @@ func (g *gen) zoneAdmit(o op) bool {
 func (g *gen) opNew() (op, bool) {
 	r := g.r
 	switch p := r.below(100); {
+	case p < 2 && g.zonePct > 0:
+		// finding "ctor": sizeByte*8 wraps
+		c := []int{1 << 61, -(1 << 60) - 1, math.MaxInt64, math.MinInt64, 1<<60 + 1, 1 << 60, -(1 << 60), 1<<60 - 1}
+		return op{k: "newmsg", z: c[r.below(len(c))]}, true
 	case p < 7:
 		return op{k: "newmsg", z: r.below(9)}, true
 	case p < 10:
@@ -362,7 +370,7 @@ func (g *gen) opInsert() (op, bool) {
 		return op{}, false
 	}
 	mi := g.sn().msgs[m]
-	c := g.startBits(mi.lay, mi.bytes*8, g.sn().sigs[x].size)
+	c := g.startBits(mi.lay, vinv.PayloadBits(mi.bytes), g.sn().sigs[x].size)
 	return op{k: "insert", a: m, b: x, z: c[g.r.below(len(c))]}, true
 }
 
@@ -416,7 +424,7 @@ func (g *gen) opShift() (op, bool) {
 			}
 			gap = sn.sigs[x].rel - lo
 		} else {
-			hi := mi.bytes * 8
+			hi := vinv.PayloadBits(mi.bytes)
 			if i+1 < len(mi.lay) {
 				hi = sn.sigs[mi.lay[i+1]].rel
 			}
@@ -461,7 +469,7 @@ func (g *gen) opResize() (op, bool) {
 func (g *gen) opAfterRefusedResize(m, asked int) (op, bool) {
 	sn := g.sn()
 	mi := sn.msgs[m]
-	size := mi.bytes * 8
+	size := vinv.PayloadBits(mi.bytes)
 	free := g.freeSigs()
 	switch p := g.r.below(100); {
 	case p < 35 && len(free) > 0:
